@@ -45,8 +45,14 @@ def _log(x):
     return math.nan
 
 
-def volatility_at(env, second_t):
+def volatility_at(env, second_t, t=0):
     ul = env["ul"]
+    if ul == "brownian_ts":
+        # the harness' user subclass of BrownianStock: volatility term structure sigma (1 + t/4)
+        return env["sigma"] * (1 + 0.25 * t)
+    if ul == "heston_user":
+        # the harness' user subclass of HestonStock: floored volatility sqrt(max(v, 0)) + 1/8
+        return math.sqrt(max(second_t, 0.0)) + 0.125
     if ul in CONST_VOL:
         return env["sigma"]
     if SECOND.get(ul) == "variance":
@@ -56,8 +62,12 @@ def volatility_at(env, second_t):
     return None
 
 
-def variance_at(env, second_t):
+def variance_at(env, second_t, t=0):
     ul = env["ul"]
+    if ul == "brownian_ts":
+        return (env["sigma"] * (1 + 0.25 * t)) ** 2
+    if ul == "heston_user":
+        return second_t
     if ul in CONST_VOL:
         return env["sigma"] ** 2
     if SECOND.get(ul) == "variance":
@@ -90,9 +100,9 @@ def value(spec, t, spot_prefix, second_prefix, env):
     if f in ("time_to_maturity", "expiry_time"):
         return (env["T"] - 1 - t) * env["dt"]
     if f == "volatility":
-        return volatility_at(env, v_t)
+        return volatility_at(env, v_t, t)
     if f == "variance":
-        return variance_at(env, v_t)
+        return variance_at(env, v_t, t)
     if f == "underlier_spot":
         return s_t
     if f == "underlier_log_spot":
